@@ -10,7 +10,7 @@ def plan_snapshot(plan):
     g = plan.graph
     nodes = []
     for n in g.nodes():
-        nodes.append((id(n), type(n).__name__, n.scope, id(getattr(n, "fn", None)), id(getattr(n, "value", None)),
+        nodes.append((id(n), type(n).__name__, getattr(n, "scope", "<none>"), id(getattr(n, "fn", None)), id(getattr(n, "value", None)),
                       id(getattr(n, "stack_frame", None)), tuple(sorted((str(k), id(v)) for k, v in g.nodes[n].items()))))
     edges = []
     for u, v, k, d in g.edges(keys=True, data=True):
